@@ -1,4 +1,5 @@
 """C17 - text encoding follows the file charset and never leaks out of a call."""
+import codecs
 import io
 
 from hypothesis import assume
@@ -27,7 +28,9 @@ RULE = ('Hypothesis draws (charset, texts for 1-4 text-carrying meta events of a
 ASSUMPTIONS = ['run_case resets the module-level charset at its top so that one leak cannot contaminate later cases']
 
 CHARSETS = ['latin1', 'utf-8', 'cp1252', 'ascii', 'shift_jis', 'euc_jp', 'big5', 'koi8_r', 'cp437', 'iso8859_15',
-            'utf-16', 'utf-16-le', 'utf-32', 'cp500', 'utf-7']
+            'utf-16', 'utf-16-le', 'utf-32', 'cp500', 'utf-7',
+            # other spellings of the same codecs (the name is handed to Python's codec registry as it is)
+            'UTF-8', 'utf8', 'Latin-1', 'ISO-8859-1', 'us-ascii', 'UTF-16-BE', 'utf_16_be', 'cp932', 'mac_roman', 'utf-8-sig']
 TEXT_ATTR = {t: a for t, (_, a) in M.TEXT_TYPES.items()}
 
 
@@ -299,7 +302,7 @@ def base_cases(draw):
         t = draw(st.sampled_from(sorted(TEXT_ATTR)))
         alpha = st.characters(codec=cs, exclude_categories=['Cs'])
         opts = [st.text(alpha, max_size=8), st.sampled_from(['', 'a', 'abc', 'A b', 'abc\x00', '\x00', 'pad\x00\x00'])]
-        if cs != 'ascii':
+        if codecs.lookup(cs).name != 'ascii':
             opts.append(st.text(st.characters(codec=cs, min_codepoint=0x80, exclude_categories=['Cs']), max_size=4))
         text = draw(st.one_of(*opts))
         try:
